@@ -214,6 +214,19 @@ func AddRandomMods(rng *rand.Rand, s *Spec, k ModKinds, p float64) {
 			s.CTags = append(s.CTags, Val{Name: d, Neg: rng.Intn(3) == 0})
 		}
 	}
+	// A value may legally be listed twice.
+	if rng.Intn(12) == 0 && len(s.Domains) > 0 {
+		s.Domains = append(s.Domains, s.Domains[rng.Intn(len(s.Domains))])
+	}
+	if rng.Intn(12) == 0 && len(s.CTags) > 0 {
+		s.CTags = append(s.CTags, s.CTags[rng.Intn(len(s.CTags))])
+	}
+	if rng.Intn(12) == 0 && len(s.DNSTypes) > 0 {
+		s.DNSTypes = append(s.DNSTypes, s.DNSTypes[rng.Intn(len(s.DNSTypes))])
+	}
+	if rng.Intn(12) == 0 && len(s.DenyAllow) > 0 {
+		s.DenyAllow = append(s.DenyAllow, s.DenyAllow[rng.Intn(len(s.DenyAllow))])
+	}
 	if on(k.Client) {
 		n := 1 + rng.Intn(6)
 		for i := 0; i < n; i++ {
